@@ -12,6 +12,7 @@ mod c10;
 mod c11;
 mod c12;
 mod c13;
+mod c14;
 mod c16;
 mod c17;
 mod c18;
@@ -69,6 +70,7 @@ fn main() {
                 "C11" => c11::run(tier, seed),
                 "C12" => c12::run(tier, seed),
                 "C13" => c13::run(tier, seed),
+                "C14" => c14::run(tier, seed),
                 "C16" => c16::run(tier, seed),
                 "C17" => c17::run(tier, seed),
                 "C18" => c18::run(tier, seed),
